@@ -61,6 +61,11 @@ type Insert struct {
 }
 type Use struct{ Name string }
 
+// Comment is {{-- body --}}; Dump is @dump(args) whose output format no
+// property fixes
+type Comment struct{ Body string }
+type Dump struct{ Args []Expr }
+
 // RawStmt is source text the model does not interpret (its render is
 // unknown); used for fault injection where only error-ness/lines matter
 type RawStmt struct{ Src string }
@@ -267,6 +272,10 @@ func (in *Interp) stmt(s Stmt, sc *Scope, out *strings.Builder) (control, error)
 		}
 	case Component:
 		return ctlNone, in.component(n, sc, out)
+	case Comment:
+		// no output
+	case Dump:
+		return ctlNone, ErrUnspecified
 	case SlotRef:
 		// resolved by component(); a bare placeholder renders nothing
 	case Reserve, Insert, Use:
